@@ -165,14 +165,15 @@ def gen_history(r, nops, collide, cfgs):
             if r.random() < 0.25 and S["reg"]:
                 k = r.choice(list(S["reg"]))
                 dt = S["reg"][k][0]
-                op = {"op": "ingest", "repo": repo, "k": k, "reuse": k, "move": r.random() < 0.5, "payload": new_payload(dt)}
+                op = {"op": "ingest", "repo": repo, "k": k, "reuse": k, "move": r.random() < 0.5, "payload": new_payload(dt), "noval": r.random() < 0.3}
                 if can_file(repo) and k not in S["stored"]:
                     S["stored"].add(k)
             else:
                 idn = rand_ident()
                 k = nextk[0]
                 nextk[0] += 1
-                op = dict(idn, op="ingest", repo=repo, k=k, reuse=None, move=r.random() < 0.5, payload=new_payload(idn["dt"]))
+                op = dict(idn, op="ingest", repo=repo, k=k, reuse=None, move=r.random() < 0.5, payload=new_payload(idn["dt"]),
+                          noval=r.random() < 0.3)          # noval: ingest(record_validation_info=False), recorded size -1
                 if key(idn) not in S["reg"].values() and can_file(repo):
                     S["reg"][k] = key(idn)
                     S["stored"].add(k)
@@ -501,7 +502,7 @@ def run_batch(ctx: Ctx, hists, origin, per_worker=6, timeout=600):
             continue
         fails, nontriv = oracle(ctx, h, res, origin)
         for op in h["ops"]:
-            ctx.hist("ops", op["op"] + (":reuse" if op.get("reuse") is not None else ""))
+            ctx.hist("ops", op["op"] + (":reuse" if op.get("reuse") is not None else "") + (":no-validation-info" if op.get("noval") else ""))
         ctx.hist("config", f"{h['cfgA']['ds']}/{h['cfgA']['fmt']}+{h['cfgB']['ds']}/{h['cfgB']['fmt']}")
         for st in res["steps"]:
             ctx.hist("outcome", st["out"])
